@@ -1,15 +1,19 @@
 #!/bin/sh
-# usage: mut.sh <file-rel-to-repo> <python-old> <python-new> <check-id> [extra symgo args]
-# applies a one-off textual mutation to /repo, runs the check, restores /repo.
+# usage: mut.sh <file-rel-to-repo> '<old text>' '<new text>' <check-id> [extra symgo args]
+# Applies a one-off textual mutation to a scratch COPY of /repo (never /repo itself), runs the check against the
+# copy, and removes the copy. \n and \t escapes are understood in old/new.
+D=$(cd "$(dirname "$0")" && pwd)
 f="$1"; old="$2"; new="$3"; id="$4"; shift 4
-python3 - "$f" "$old" "$new" <<'PY'
+M=$(mktemp -d /tmp/mutrepo.XXXXXX)
+trap 'rm -rf "$M"' EXIT
+rsync -a --exclude .git /repo/ "$M/"
+python3 - "$M/$f" "$old" "$new" <<'PY'
 import sys
-p='/repo/'+sys.argv[1]; s=open(p).read()
+p=sys.argv[1]; s=open(p).read()
 old=sys.argv[2].encode().decode('unicode_escape'); new=sys.argv[3].encode().decode('unicode_escape')
 if s.count(old)<1: print("MUTATION TARGET NOT FOUND"); sys.exit(3)
 s=s.replace(old,new,1); open(p,'w').write(s)
 PY
 [ $? -eq 3 ] && exit 3
-git -C /repo diff --stat | tail -1
-cd /verif && ./bin/symgo check "$id" --no-evidence "$@" 2>&1 | grep -v "^\s*/\|^main\.\|^goroutine\|^created" | tail -12
-git -C /repo checkout -- .
+(cd "$M" && env -u GOFLAGS GOPROXY=off go build ./$(dirname "$f")/ 2>&1 | head -5)
+cd "$D" && VERIF_DIR="${VERIF_DIR:-$D}" VERIF_REPO="$M" timeout 900 ./bin/symgo check "$id" --no-evidence "$@" 2>&1 | grep -v "^\s*/\|^main\.\|^goroutine\|^created" | tail -12
